@@ -152,6 +152,8 @@ pub struct StageStats {
     pub nontrivial_keys: HashSet<u64>,
     /// for enumerations whose inputs are distinct by construction
     pub nontrivial_counted: u64,
+    /// block cases with a key: key -> non-trivial units (distinct blocks only count once)
+    pub unit_keys: std::collections::HashMap<u64, u64>,
     pub labels: BTreeMap<&'static str, u64>,
     pub excluded: BTreeMap<&'static str, u64>,
     pub samples: Vec<String>,
@@ -173,9 +175,15 @@ impl StageStats {
             self.evaluations += c.units;
             self.checks += c.checks;
             self.nontrivial_total += c.nontrivial_units;
-            self.nontrivial_counted += c.nontrivial_units;
+            match c.key {
+                Some(k) => {
+                    self.unit_keys.insert(k, c.nontrivial_units);
+                }
+                None => self.nontrivial_counted += c.nontrivial_units,
+            }
+            // plain labels of a block case describe every unit in it
             for l in &c.labels {
-                *self.labels.entry(l).or_default() += 1;
+                *self.labels.entry(l).or_default() += c.units;
             }
             for (l, n) in &c.labeln {
                 *self.labels.entry(l).or_default() += n;
@@ -227,6 +235,7 @@ impl StageStats {
         self.nontrivial_total += o.nontrivial_total;
         self.nontrivial_counted += o.nontrivial_counted;
         self.nontrivial_keys.extend(o.nontrivial_keys);
+        self.unit_keys.extend(o.unit_keys);
         for (k, v) in o.labels {
             *self.labels.entry(k).or_default() += v;
         }
@@ -241,7 +250,7 @@ impl StageStats {
         self.checks += o.checks;
     }
     pub fn distinct_nontrivial(&self) -> u64 {
-        self.nontrivial_keys.len() as u64 + self.nontrivial_counted
+        self.nontrivial_keys.len() as u64 + self.nontrivial_counted + self.unit_keys.values().sum::<u64>()
     }
     pub fn label(&self, l: &str) -> u64 {
         self.labels.get(l).copied().unwrap_or(0)
